@@ -82,8 +82,33 @@ class ItemDirective:
         return None
 
 
+def ws_tolerant(frm):
+    """regex (bytes) that matches `frm` with any layout of white space between its tokens (so that a reformatted
+    source -- a method chain broken over lines -- still matches)"""
+    toks = re.findall(r"\w+|\S", frm)
+    out = ""
+    for i, t in enumerate(toks):
+        if i:
+            out += r"\s+" if (re.match(r"\w", toks[i - 1][-1]) and re.match(r"\w", t[0])) else r"\s*"
+        out += re.escape(t)
+    if toks and re.match(r"\w", toks[0][0]):
+        out = r"\b" + out
+    if toks and re.match(r"\w", toks[-1][-1]):
+        out = out + r"\b"
+    return out.encode()
+
+
 def split_opts(s):
+    # `name{{raw text}}` is the same as `name(raw text)` for text with unbalanced parentheses or spaces
     out, depth, cur = [], 0, ""
+    while "{{" in s:
+        a = s.index("{{")
+        b = s.index("}}", a)
+        head = s[:a]
+        k = max(head.rfind(" "), head.rfind("\t")) + 1
+        out.extend(split_opts(head[:k]))
+        out.append(head[k:] + "(" + s[a + 2:b] + ")")
+        s = s[b + 2:]
     for ch in s:
         if ch == "(":
             depth += 1
@@ -146,7 +171,7 @@ def parse_template(path):
                 rest = m.group(2)
                 # path ends at first opt token; opts are known keywords
                 toks = split_opts(rest)
-                optkw = ("subst(", "optsubst(", "closurepat(", "fragment(", "addgenerics(", "sigsubst(", "bound(", "attr(", "ret(", "mono(", "nogenerics", "nowhere", "keepvis", "keepattrs", "desugar(",
+                optkw = ("subst(", "optsubst(", "forexpr(", "closurepat(", "fragment(", "addgenerics(", "sigsubst(", "bound(", "attr(", "ret(", "mono(", "nogenerics", "nowhere", "keepvis", "keepattrs", "desugar(",
                          "trusted", "rename(", "nobody", "novis")
                 ptoks, otoks = [], []
                 for t in toks:
@@ -299,13 +324,18 @@ def assemble_item(d, info, src, srcfile_label, log):
             # optsubst: the instance may be absent (nothing to replace then)
             optional = o.startswith("optsubst(")
             frm, to = [x.strip() for x in o[(9 if optional else 6):-1].split("=>")]
-            hits = list(re.finditer(re.escape(frm.encode()), src[start:end]))
+            hits = list(re.finditer(ws_tolerant(frm), src[start:end]))
             if not hits and optional:
                 continue
             if not hits:
                 raise Undecided(f"{d.path}: subst: `{frm}` not found -- anchor lost")
             for m_ in hits:
                 add(start + m_.start(), start + m_.end(), to, "MONO")
+    if d.opt("desugar(debug_assert)"):
+        # `debug_assert!(c)` -> `debug_assert_holds(c)`: the debug-build assertion becomes an obligation (the unit's
+        # prelude declares `fn debug_assert_holds(c: bool) requires c`); Verus has no `debug_assert!`
+        for m_ in re.finditer(rb"\bdebug_assert!", src[start:end]):
+            add(start + m_.start(), start + m_.end(), "debug_assert_holds", "DEBUG_ASSERT_AS_OBLIGATION")
     for o in d.opts:
         if o.startswith("closurepat("):
             # `|(a, b)| { body }` -> `|p: T| { let (a, b) = p; body }` (Verus: closure parameters must be plain variables)
@@ -366,7 +396,7 @@ def assemble_item(d, info, src, srcfile_label, log):
         for o in d.opts:
             if o.startswith("addgenerics("):
                 # generic parameters of the dropped impl header are moved onto the function (IMPL_HEADER rule)
-                if it.get("gparams") and it["gparams"]["params"]:
+                if it.get("gparams") and it["gparams"]["params"] and not d.opt("nogenerics"):
                     raise Undecided(f"{d.path}: addgenerics on a function that already has generics")
                 sig_a, sig_b = it["sig"]
                 m_ = re.search(rb"\bfn\s+" + re.escape(it["name"].encode()) + rb"\b", src[sig_a:sig_b])
@@ -501,6 +531,31 @@ def assemble_item(d, info, src, srcfile_label, log):
                         if ve != be:
                             add(ve, be, "", "DESUGAR_BREAK_VALUE")
                         add(be, be, "; break; }", "DESUGAR_BREAK_VALUE")
+            elif o == "desugar(for_next)":
+                # `for PAT in EXPR { BODY }` -> `{ let mut iter__k = EXPR; loop { match iter__k.next() { None => { break; }
+                # Some(PAT) => { BODY } } } }` -- the expansion the compiler itself performs, except that EXPR is used as
+                # the iterator directly (IntoIterator::into_iter is the identity on iterators); Verus has no `for` over
+                # iterators it has no specification for. Loop clauses of the directive attach to the new `loop`.
+                k_ = -1
+                for lp in it["loops"]:
+                    if lp["kind"] != "for":
+                        continue
+                    k_ += 1
+                    if lp.get("label"):
+                        raise Undecided(f"{d.path}: for_next desugaring does not support labelled loops")
+                    pat = src[lp["pat"][0]:lp["pat"][1]].decode()
+                    expr = src[lp["expr"][0]:lp["expr"][1]].decode()
+                    for o2 in d.opts:
+                        # forexpr(frm=>to): the iterator expression itself is replaced by its prelude model
+                        if o2.startswith("forexpr("):
+                            frm, to = [x.strip() for x in o2[8:-1].split("=>")]
+                            if re.fullmatch(ws_tolerant(frm), expr.strip().encode()):
+                                expr = to
+                    add(lp["start"], lp["body_open"], f"{{ let mut iter__{k_} = {expr}; loop ", "DESUGAR_FOR_NEXT")
+                    add(lp["body_open"] + 1, lp["body_open"] + 1,
+                        f" match iter__{k_}.next() {{ None => {{ break; }} Some({pat}) => {{", "DESUGAR_FOR_NEXT", prio=-1)
+                    add(lp["body_close"], lp["body_close"], " } } ", "DESUGAR_FOR_NEXT")
+                    add(lp["body_close"] + 1, lp["body_close"] + 1, " }", "DESUGAR_FOR_NEXT", prio=-2)
             elif o == "desugar(or_guard)":
                 # `A | B if g => body` -> `A if g => body, B if g => body` (Verus: or-pattern with a guard unsupported)
                 if not it.get("or_guards"):
